@@ -1,7 +1,7 @@
 """C16: whole-function generation leaves the MIR program intact and is repeatable (fast + asan builds)."""
 from vlib import build, common
 
-MAX_LEVEL = 1  # highest -O level used by histories (raised once C01 findings at -O2/-O3 are resolved)
+MAX_LEVEL = 3  # highest -O level used by histories
 
 RULE = ("one case = one history over a linked program (generated executable module + helper functions needing builtins, alloca, varargs, "
         "multiple results, a hard-register-tied global): random sequence of MIR_gen at random levels and in random order, repeated MIR_gen, "
